@@ -589,9 +589,10 @@ def arg_kind(ctx, R, f, el):
 
 def is_quoted_b64(e):
     """b'"%s"' % base64.b64encode(x)   or  '"%s"' % obj.response(...)  (digest, base64 by construction)"""
-    if isinstance(e, ast.BinOp) and isinstance(e.op, ast.Mod) and isinstance(e.left, ast.Constant) \
-            and e.left.value in (b'"%s"', '"%s"'):
-        r = e.right
+    from sa.template import template, shape, holes
+    t = template(e)
+    if t is not None and shape(t) == '"\0"' and len(holes(t)) == 1 and holes(t)[0].spec is None:
+        r = holes(t)[0].expr
         if isinstance(r, ast.Call) and call_name(r) in ("b64encode", "response"):
             return True
     return False
